@@ -9,7 +9,7 @@ from __future__ import annotations
 import random
 
 SIZES = [0, 1, 1, 2, 2, 2, 3, 3, 4, 6, None, None]
-CB_KINDS = [None, None, "s", "s", "a", "g", "sx", "ax", "gx", "sT", "sm", "am", "so", "sp", "ap", "gp", "sf", "ak", "gk", "sxp", "axp", "sxo", "gxm"]
+CB_KINDS = [None, None, "s", "s", "a", "g", "sx", "ax", "gx", "sT", "sm", "am", "so", "sp", "ap", "gp", "sf", "ak", "gk", "sxp", "axp", "sxo", "gxm", "su", "sd", "ad", "gd"]
 CB_KINDS_SAFE = [None, "s", "a", "g", "sm"]
 ASH = [0, 1, 2, 3, 3, 5, 6]      # payload shapes (4 is the counting iterator of rejected requests)
 POINTS = ["ws", "we", "wc", "ecb", "ccb", "it", "fa"]
@@ -402,7 +402,7 @@ class PhasedGen(Gen):
     seeded order with seeded outcomes (return, raise, callback cancelled) while those calls are waiting, (5) final
     flush.  Uniform random runs reach such overlaps rarely; here every run has them."""
 
-    CBS = ["g", "g", "gx", "s", "a", "sx", "ax", None, None, "sm", "sT", "gm", "so", "gp", "ap", "gk", "ak"]
+    CBS = ["g", "g", "gx", "s", "a", "sx", "ax", None, None, "sm", "sT", "gm", "so", "gp", "ap", "gk", "ak", "su", "sd", "gd"]
 
     def __init__(self, seed: int, prop: str, clean: bool = True):
         super().__init__(seed, prop, clean)
